@@ -272,7 +272,7 @@ def id_problems(tree, root):
         dropped = set()         # tokens inside content that is removed by design (mphantom, annotations): their text coming back is a coincidence
 
         def mark(n, inside):
-            inside = inside or n.tag in ("mphantom", "annotation", "annotation-xml", "maction", "semantics")
+            inside = inside or n.tag in ("mphantom", "annotation", "annotation-xml", "maction")    # the first child of semantics is the presentation and stays
             if n.kids is None:
                 if inside:
                     dropped.add(id(n))
@@ -319,7 +319,7 @@ def id_problems(tree, root):
         in_2d, out_2d = {}, {}
 
         def collect(n, inside):
-            inside = inside or n.tag in ("mphantom", "annotation", "annotation-xml", "maction", "semantics")
+            inside = inside or n.tag in ("mphantom", "annotation", "annotation-xml", "maction")    # the first child of semantics is the presentation and stays
             if n.tag in two_d:
                 in_2d.setdefault(n.tag, []).append(None if inside else n)
             for k in (n.kids or []):
